@@ -990,20 +990,30 @@ def main():
     # Python predicates only (definition + label invariance): the interpreted Lean driver needs O(n^2 k) rational operations per
     # line and would take minutes at n = 300, so these cases are not sent to the model.
     if not ck.replay:
-        shapes = [(130, 128), (170, 150), (230, 200), (300, 270)] if quick else \
-                 [(130, 128), (131, 129), (150, 128), (170, 150), (200, 199), (230, 200), (260, 130), (300, 270), (300, 256)]
+        # size axis (round 4: block-wise fast paths with wrong bounds, narrow integer types): number of communities just below / at /
+        # above 32, 64, 128 for EVERY routine, in the quick tier with n <= 150; the bulk (n up to 300) in the thorough tier
+        shapes = [(40, 31), (44, 32), (48, 33), (90, 64), (96, 65), (150, 130)] if quick else \
+                 [(40, 31), (44, 32), (48, 33), (33, 33), (90, 64), (96, 65), (70, 65), (130, 128), (131, 129), (150, 128), (150, 130),
+                  (170, 150), (200, 199), (230, 200), (260, 130), (300, 270), (300, 256), (300, 257)]
         for li, (n, k) in enumerate(shapes):
             c = large_partition(rs, n, k)
             LARGE[li] = {'n': n, 'rgs': c, 'mats': gen_mats(rs, n, dens=min(.5, 6.0 / n)), 'relabs': large_relabellings(c, rs)}
             for v in variants():
-                if v[1] == 'gateway_coef_sign' and (n > 140 or 'betweenness' in v[0]):
+                if v[1] == 'gateway_coef_sign' and (n > 150 or 'betweenness' in v[0]):
                     continue                  # gateway's Python double loop over nodes x modules: kept to the n <= 140 shapes
                 cons.append({'large': li, 'only': v[0]})
             rel = LARGE[li]['relabs']
             lists.append({'n': n, 'rgs': c, 'relabs': rel, 'seed': int(rs.randint(2 ** 31))})
-            c2 = large_partition(rs, n, int(rs.randint(128, k + 1)))
-            for x, y in ((c, c), (c, c2), (c2, c)):
+            c2 = large_partition(rs, n, int(rs.randint(max(2, k // 2), k + 1)))
+            # nested partitions, both orders: a coarsening of c (pairs of modules merged), all singletons, the one-community partition
+            coarse = tuple(r - 1 for r in first_occ([x // 2 for x in c]))
+            coarser = tuple(r - 1 for r in first_occ([x // 5 for x in c]))
+            single = tuple(range(n)); one = tuple([0] * n)
+            pairs = [(c, c), (c, c2), (c2, c), (c, coarse), (coarse, c), (coarse, coarser), (coarser, coarse), (single, c), (c, single),
+                     (c, one), (one, c), (single, one), (one, single), (single, single), (one, one), (coarse, coarse)]
+            for x, y in pairs:
                 pds.append({'n': n, 'x': x, 'y': y, 'rx': large_relabellings(x, rs), 'ry': large_relabellings(y, rs), 'model': False})
+            ck.count('nested_partition_pairs', 12)
             agrs.append({'n': n, 'cols': [[v + 1 for v in c], [v + 1 for v in c2]],
                          'cols2': [large_relabellings(c, rs)[2][1], large_relabellings(c2, rs)[1][1]]})
         ck.count('large_partition_shapes', len(shapes))
